@@ -61,6 +61,9 @@ def base_shells(seed, pid, init0):
     out = []
     cens = [cg.center(rng, 1.5) for _ in range(2)]
     ls = rng.sample([0, 1, 2, 3], len(init0)) if len(init0) <= 4 else [rng.randint(0, 3) for _ in init0]
+    twins = pid == "C11" and len(init0) in (2, 3)
+    if twins:
+        ls[0] = ls[1] = 2          # two d shells, one Cartesian and one pure (set below): same l, different coordinate types
     for k, s in enumerate(init0):
         exps = []
         while len(exps) < s["K"]:
@@ -69,6 +72,8 @@ def base_shells(seed, pid, init0):
                 exps.append(e)
         out.append({"l": ls[k], "center": [cg.val(x) for x in (rng.choice(cens) if rng.random() < 0.5 else cg.center(rng, 1.5))],
                     "type": rng.choice(["cartesian", "spherical"]), "exps": exps})
+    if twins:
+        out[0]["type"], out[1]["type"] = ("cartesian", "spherical") if rng.random() < 0.5 else ("spherical", "cartesian")
     return out
 
 
@@ -134,6 +139,9 @@ def replay_state(arg):
             continue
         a = f(ref, None)
         b = f(cur, None)
+        if a.shape[:nb] != (nref,) * nb:
+            res["violations"].append("%s: the array of the original basis has shape %s, the basis has %d functions" % (name, a.shape, nref))
+            continue
         want = a
         for ax in range(nb):
             want = np.take(want, idx, axis=ax)
@@ -203,6 +211,25 @@ def replay_symmetry(arg):
         dev = np.abs(er - np.transpose(er, perm)) / (dg[:, :, None, None] * dg[None, None, :, :] + 1e-300)
         if not dev.max() <= 1e-6:
             res["violations"].append("electron_repulsion_integral lacks the index symmetry %s (%.3g of the Schwarz scale)" % (perm, dev.max()))
+    # screened overlap under every listing order: compact and diffuse shells 4..16 bohr apart, so that some blocks lie
+    # beyond the cut-off and some between the cut-offs a one-sided rule would give
+    sc_basis = []
+    zpos = 0.0
+    for k in range(3):
+        zpos += rng.uniform(4.0, 8.0) if k else 0.0
+        lo, hi = [(2.0, 8.0), (0.05, 0.2), (0.3, 1.0)][(k + n) % 3]
+        sc_basis.append(cg.shell(rng, rng.randint(0, 2), K=rng.randint(1, 2), M=rng.randint(1, 2), lo=lo, hi=hi,
+                                 cen=[cg.dyadic(rng.uniform(-1, 1), 10), cg.dyadic(rng.uniform(-1, 1), 10), cg.dyadic(zpos, 10)]))
+    sc_shells = gb.make_basis(sc_basis)
+    sizes = [layout.size(s_) for s_ in sc_basis]
+    offs = np.concatenate([[0], np.cumsum(sizes)])
+    ovf = m("gbasis.integrals.overlap").overlap_integral
+    for tol in (1e-8, 1e-4):
+        ref = ovf(sc_shells, tol_screen=tol)
+        for perm in itertools.permutations(range(3)):
+            got = ovf([sc_shells[p_] for p_ in perm], tol_screen=tol)
+            idx = np.concatenate([np.arange(offs[p_], offs[p_ + 1]) for p_ in perm])
+            chk("overlap_integral(tol_screen=%g) with the shells listed in the order %s" % (tol, perm), got, ref[np.ix_(idx, idx)], tol=1e-12, scale=1.0)
     # shell blocks in every orientation
     PC = m("gbasis.integrals.point_charge").PointChargeIntegral
     OV = m("gbasis.integrals.overlap").Overlap
@@ -340,7 +367,7 @@ def run(pid, tier, seed, only_case=None):
                 continue                      # quick: every depth-1 state, a third of the deeper ones
             if not quick and pid == "C13" and st.get("depth", 0) >= 3 and (len(seen) + seed) % 8:
                 continue                      # thorough: TLC checks every depth-3 state, an eighth of them is replayed
-            eri = len(cases) % (12 if quick else 2) == 0 and len(init0) <= 2
+            eri = (len(cases) % (12 if quick else 2) == 0 or pid == "C11") and len(init0) <= 2
             cases.append((pid, seed, init0, st, eri))
     out = common.pmap(replay_state, cases)
     for c, r in zip(cases, out):
